@@ -1,10 +1,14 @@
 import NbdimeProofs.Lemmas.LcsMatching
 import NbdimeProofs.Lemmas.JsonEq
+import NbdimeProofs.Lemmas.RoundtripAll
 /-
   C02 — generic JSON diff/patch round trip. Property theorems only (helper lemmas live in Lemmas/).
-  Status: sequence level proved for every monotone matching (whatever the LCS/snake heuristics
-  pick); the recursive statement over whole documents is `C02_roundtrip_statement` below and is
-  not yet proved in full (see MANIFEST level_note).
+  Status: the recursive round trip over whole documents (lists, dicts, strings, any depth) is
+  proved for every similarity oracle (`C02_roundtrip_partial`); "partial" only because the code
+  compares leaves with Python `==`, so documents that contain booleans or floats are outside it
+  (finding F-eq, refuted by `C02_pyEq_refuted`). The remaining hypotheses are checked at run time:
+  difflib's opcode contract (`OracleOK`, evaluated by the driver on every recorded answer) and dict
+  keys sorted (the codec delivers them so).
 -/
 namespace Nbdime
 open Nbdime.Abs
@@ -15,6 +19,33 @@ open Nbdime.Abs
 def C02_roundtrip_statement : Prop :=
   ∀ (O : Oracle) (a b : J) (d : List Op),
     diffGeneric O a b = .ok d → ∃ r, patch a d = .ok r ∧ J.pyEq r b = true
+
+/-- The recursive round trip, at every depth and for every answer of the similarity predicates:
+    if the generic differ returns `d` for `(a, b)` then `patch a d` succeeds and is exactly `b`.
+    Hypotheses: no booleans / floats in the documents (Python `==` would identify `1`, `1.0`, `True`:
+    finding F-eq), dict keys sorted, and opcode answers that satisfy difflib's contract. -/
+theorem C02_roundtrip_partial (O : Oracle) (hO : OracleOK O) (a b : J) (d : List Op)
+    (ca : a.canonical = true) (cb : b.canonical = true) (ia : a.intsOnly = true) (ib : b.intsOnly = true)
+    (h : diffGeneric O a b = .ok d) : patch a d = .ok b :=
+  diffAt_generic_roundtrip O hO bigFuel "" a b d ca cb ia ib h
+
+/-- non-vacuity: a nested document pair with a list insertion, a dict change and a string edit, and an
+    oracle whose answers satisfy the contract; the differ returns a diff and the hypotheses hold -/
+def exOracle : Oracle :=
+  { cmp := fun _ x y => .ok (J.beq x y),
+    opcodes := fun a b => .ok [⟨"replace", 0, a.length, 0, b.length⟩] }
+
+theorem exOracle_ok : OracleOK exOracle := by
+  intro a b ocs h
+  simp only [exOracle, Except.ok.injEq] at h
+  subst h
+  simp [opcodesValid, opcodesValidAux]
+
+def exA : J := .obj [("k", .arr [.int 1, .int 2]), ("s", .str "ab\ncd".toList)]
+def exB : J := .obj [("k", .arr [.int 1, .int 3, .int 2]), ("s", .str "ab\nce".toList), ("z", .null)]
+
+example : (diffGeneric exOracle exA exB).toBool = true ∧ exA.canonical = true ∧ exB.canonical = true ∧
+    exA.intsOnly = true ∧ exB.intsOnly = true := by decide +kernel
 
 /-- Sequence level: for *every* monotone matching `ps` between `a` and `b` (the LCS actually
     chosen is irrelevant) the diff that `diff_from_lcs` emits, applied by the model's
